@@ -20,6 +20,7 @@ import (
 	"sort"
 	"strconv"
 	"strings"
+	"time"
 
 	"github.com/folbricht/desync"
 
@@ -40,6 +41,7 @@ type c07Case struct {
 	Avg     uint64   `json:"avg,omitempty"`
 	Max     uint64   `json:"max,omitempty"`
 	Level   string   `json:"level"` // library | cli
+	DelayMs int      `json:"delay_ms,omitempty"` // pause inside the K-th hit before cancelling
 
 	Got      string `json:"impl_result,omitempty"`
 	Complete bool   `json:"impl_complete"`
@@ -66,6 +68,7 @@ var c07Sites = map[string][]string{
 	"copy":          {"copy.feed", "st.has", "st.get", "st.store"},
 	"chunkstream":   {"chunkstream.feed", "st.has", "st.store", "rd.read"},
 	"assemble":      {"validate.feed", "assemble.feed", "assemble.job", "assemble.add", "st.get"},
+	"validate":      {"validate.feed"},
 	"assemble-seed": {"validate.feed", "assemble.feed", "assemble.job", "assemble.add", "st.get", "pchunk.next", "pchunk.send"},
 	"indexfromfile": {"pchunk.next", "pchunk.send", "pchunk.sync", "pchunk.skip", "pchunk.syncrecv", "pchunk.nullrecv"},
 	"untarindex":    {"untarindex.feed", "st.get", "fs.create"},
@@ -76,7 +79,7 @@ var c07Sites = map[string][]string{
 // feeder site of the six pool-shaped entry points (model correspondence)
 var c07Feed = map[string]string{
 	"verifyindex": "verifyindex.feed", "chop": "chop.feed", "copy": "copy.feed",
-	"chunkstream": "chunkstream.feed", "assemble": "assemble.feed",
+	"chunkstream": "chunkstream.feed", "assemble": "assemble.feed", "validate": "validate.feed",
 }
 
 type tickReader struct {
@@ -276,6 +279,40 @@ func c07Exec(a vh.Args, c *c07Case) error {
 			return ""
 		}
 
+	case "validate":
+		// sequencer.go Plan.Validate on a plan whose segments all come from one file seed (the chunks of
+		// the blob in reverse order, so every segment is one chunk); "bad@j": the seed bytes behind plan
+		// segment j were changed after the seed index was made
+		sin := bkInput{}
+		chs := in.chunks()
+		for i := len(chs) - 1; i >= 0; i-- {
+			sin.Blob = append(sin.Blob, chs[i]...)
+			sin.Sizes = append(sin.Sizes, len(chs[i]))
+		}
+		sidx := sin.index()
+		sfile := append([]byte{}, sin.Blob...)
+		if kind == "bad" {
+			sfile[chunkStartOf(sin.Sizes, len(chs)-1-j)] ^= 0x08
+		}
+		sname := filepath.Join(work, "seed")
+		if err := os.WriteFile(sname, sfile, 0644); err != nil {
+			return err
+		}
+		seed, err := desync.NewIndexSeed(filepath.Join(work, "out"), sname, sidx)
+		if err != nil {
+			return err
+		}
+		plan := desync.NewSeedSequencer(idx, seed).Plan()
+		run = func(ctx context.Context, cc *canceller) error {
+			return plan.Validate(ctx, c.N, pb)
+		}
+		complete = func() string {
+			if kind == "bad" {
+				return "the seed file does not match its index at plan segment " + strconv.Itoa(j)
+			}
+			return ""
+		}
+
 	case "untarindex", "untar", "tar":
 		var err error
 		run, complete, err = c07TreeOp(work, c, in)
@@ -287,7 +324,7 @@ func c07Exec(a vh.Args, c *c07Case) error {
 		return fmt.Errorf("unknown op %q", c.Op)
 	}
 
-	err, hits, fired, finished := withCancelAt(c.K, sites, run)
+	err, hits, fired, finished := withCancelAt(c.K, time.Duration(c.DelayMs)*time.Millisecond, sites, run)
 	c.Hits, c.Fired = hits, fired
 	if !finished {
 		c.Got = "hang"
@@ -322,7 +359,7 @@ func c07BadJobs(c *c07Case, idx desync.Index) []int {
 	case c.Op == "verifyindex" && kind == "bad":
 		batch := len(idx.Chunks) / (c.N * 10)
 		return []int{j / (batch + 1)}
-	case c.Op == "chop" && kind == "bad":
+	case (c.Op == "chop" || c.Op == "validate") && kind == "bad":
 		return []int{j}
 	case (c.Op == "copy" || c.Op == "assemble") && kind == "missing":
 		var out []int
@@ -345,7 +382,7 @@ func c07Check(a vh.Args, o *vh.Oracle, r *vh.Result, c *c07Case, njobs int) erro
 	if c.Sites != nil {
 		siteTag = strings.Join(c.Sites, "+")
 	}
-	key := fmt.Sprintf("%s|%s|%d|%d|%s|%d", c.Op, c.Variant, c.N, c.K, siteTag, len(c.Sizes))
+	key := fmt.Sprintf("%s|%s|%d|%d|%s|%d|%d", c.Op, c.Variant, c.N, c.K, siteTag, len(c.Sizes), c.DelayMs)
 	r.Count(key, c.Fired)
 	r.Dist("op:" + c.Op)
 	r.Dist("n:" + strconv.Itoa(c.N))
@@ -448,6 +485,9 @@ func runC07(a vh.Args, o *vh.Oracle, r *vh.Result) error {
 		{"copy", func(in bkInput) []string { return []string{"ok", fmt.Sprintf("missing@%d", rng.Intn(len(in.Sizes)))} }, false},
 		{"chunkstream", func(in bkInput) []string { return []string{"ok"} }, true},
 		{"assemble", func(in bkInput) []string { return []string{"ok", fmt.Sprintf("missing@%d", rng.Intn(len(in.Sizes)))} }, false},
+		{"validate", func(in bkInput) []string {
+			return []string{"ok", fmt.Sprintf("bad@%d", last(in)), fmt.Sprintf("bad@%d", rng.Intn(len(in.Sizes)))}
+		}, false},
 		{"assemble-seed", func(in bkInput) []string {
 			return []string{"seed-ok", "seed-invalid/skip", "seed-invalid/regenerate", "seed-invalid/bailout"}
 		}, false},
@@ -482,7 +522,7 @@ func runC07(a vh.Args, o *vh.Oracle, r *vh.Result) error {
 					nch = 8 + rng.Intn(25)
 				}
 				distinct := nch
-				if sp.op != "assemble" && ii%2 == 1 {
+				if sp.op != "assemble" && sp.op != "validate" && ii%2 == 1 {
 					distinct = 1 + nch/3
 				}
 				in = bkDupInput(rng, nch, distinct, 40)
